@@ -17,7 +17,7 @@ DIMENS
 START
  1 'JAN' 2020 /
 WELLDIMS
- 12 12 8 12 /
+ 12 12 8 12 6* 4 4 /
 TABDIMS
  1 1 20 20 2 20 /
 EQLDIMS
@@ -336,6 +336,25 @@ def kw_wgrupcon(draw, m):
 
 @st.composite
 def kw_wlist(draw, m):
+    if len(m.wells) >= 2 and draw(st.integers(0, 2)) == 0:
+        # a short history in one keyword: two lists sharing a well, then that well leaves the list it joined first
+        # (DEL, MOV to the other list, or the first list redefined without it)
+        ws = sorted(m.wells)
+        w1 = draw(st.sampled_from(ws))
+        others = [w for w in ws if w != w1]
+        w2 = draw(st.sampled_from(others))
+        la, lb = draw(st.sampled_from([("*L1", "*L2"), ("*L2", "*L1"), ("*LX", "*L1"), ("*L2", "*LX")]))
+        recs = [" '%s' 'NEW' '%s' /" % (la, w1), " '%s' 'NEW' '%s' '%s' /" % (lb, w1, w2)]
+        last = draw(st.sampled_from(["DEL", "DEL", "NEW", "MOV", "none"]))
+        if last == "DEL":
+            recs.append(" '%s' 'DEL' '%s' /" % (la, w1))
+        elif last == "NEW":
+            recs.append(" '%s' 'NEW' '%s' /" % (la, w2))
+        elif last == "MOV":
+            recs.append(" '%s' 'MOV' '%s' /" % (lb, w2))
+        m.wlists.setdefault(la, set())
+        m.wlists.setdefault(lb, set())
+        return "WLIST\n%s\n/\n" % "\n".join(recs)
     name = draw(st.sampled_from(["*L1", "*L2", "*LX"]))
     wells = draw(st.lists(st.sampled_from(sorted(m.wells)), min_size=1, max_size=3, unique=True))
     op = "NEW" if name not in m.wlists else draw(st.sampled_from(["NEW", "ADD", "DEL", "MOV"]))
